@@ -1,6 +1,7 @@
 import Oas3Model.Model.Server
 import Oas3Model.Props.C04
 import Oas3Model.Proofs.Interop
+import Oas3Model.Proofs.ReqInterop
 namespace Oas3.Props.C06
 open Oas3.Server Oas3.Status Oas3.Resp
 
@@ -94,5 +95,113 @@ example : (chainOf Oas3.Props.C04.rs4).map (fun ch => (armsOf Oas3.Props.C04.rs4
     some [("Ok".toList, 200, "Ok".toList), ("NotFound".toList, 404, "NotFound".toList),
           ("ClientError".toList, 400, "ClientError".toList), ("Unknown".toList, 200, "Ok".toList)] := by
   decide +kernel
+
+/-! ## request side: the client's encoding against the server's decoding (two separate generator runs)
+
+Model: `Model/ReqInterop.lean`; lemmas: `Proofs/ReqInterop.lean`.  The facts (`OpFacts`) are read by the harness
+from the two emitted halves (`interop.req`); the judge `reqInteropOk` is evaluated on them by the driver. -/
+section Request
+open Oas3.ReqInterop Oas3.Url Oas3.Path
+
+/-- **route round trip** (unbounded, by induction over the segments): for every chain of literal / parameter /
+prefixed-parameter segments whose literal text travels unchanged, and all parameter values with a non-empty
+Display form, the route pattern derived from the same chain matches the segments the client emits and captures
+exactly the pushed values in template order — raw, and equal to the values after the percent-decoding that
+axum's `Path` extractor applies.  ('/' inside a value needs no side condition: `push` percent-encodes it.) -/
+theorem route_roundtrip (key : Str → Str) (env : Str → List UInt8) (chain : List CSeg)
+    (hs : ∀ c ∈ chain, c.safe = true) (hv : ∀ c ∈ chain, ∀ f ∈ c.fields, env f ≠ []) :
+    routeMatch (chain.map (toAxum key)) (chain.map (clientRaw env)) = some (capsOf key env chain) ∧
+    (capsOf key env chain).map (fun c => (c.1, pctDecode c.2)) =
+      (chain.flatMap CSeg.fields).map fun f => (key f, env f) :=
+  ⟨routeMatch_toAxum key env chain hs hv, capsOf_decode key env chain⟩
+
+/-- the judge's path clause forces the server's pattern to be the one derived from the client's chain -/
+theorem path_clause_sound (k : Str → Option Str) (chain : List CSeg) (pat : List PSeg) (h : pathOk k chain pat = true) :
+    pat = chain.map (toAxum fun f => (k f).getD []) ∧ ∀ c ∈ chain, c.safe = true :=
+  pathOk_sound k chain pat h
+
+/-- **enum codec**: the decidable clause is exactly "every variant survives Display → transform → arms" -/
+theorem enum_roundtrip_iff (vars : List Str) (e : Encoder) (d : Decoder) :
+    enumOk vars e d = true ↔ ∀ v ∈ vars, ∃ s, display e v = some s ∧ fromStr d s = some v :=
+  enumOk_iff vars e d
+
+/-- a lower-casing scrutinee with arms that keep an upper-case letter loses the variant -/
+theorem lowercase_breaks :
+    let enc : Encoder := [("Desc".toList, "DESC".toList), ("Premium".toList, "Premium".toList), ("Asc".toList, "asc".toList)]
+    let arms := [("DESC".toList, "Desc".toList), ("Premium".toList, "Premium".toList), ("asc".toList, "Asc".toList)]
+    enumOk ["Desc".toList, "Premium".toList, "Asc".toList] enc ⟨[.asciiLower], arms, none⟩ = false ∧
+    fromStr ⟨[.asciiLower], arms, none⟩ "Premium".toList = none ∧
+    enumOk ["Desc".toList, "Premium".toList, "Asc".toList] enc ⟨[.id], arms, none⟩ = true := by
+  decide
+
+/-- the hand-written case-insensitive `Deserialize` (lower-cased scrutinee AND lower-cased arms) is fine -/
+theorem lowercase_with_lowered_arms_ok :
+    enumOk ["Desc".toList, "Premium".toList] [("Desc".toList, "DESC".toList), ("Premium".toList, "Premium".toList)]
+      ⟨[.asciiLower], [("desc".toList, "Desc".toList), ("premium".toList, "Premium".toList)], none⟩ = true := by
+  decide
+
+/-- a fallback arm does not rescue a lost variant: it answers with ANOTHER variant -/
+theorem fallback_is_not_roundtrip :
+    fromStr ⟨[.asciiLower], [("DESC".toList, "Desc".toList), ("Premium".toList, "Premium".toList)], some "Desc".toList⟩ "Premium".toList
+      = some "Desc".toList := by
+  decide
+
+/-- **trailing slash**: `/items` and `/items/` are different routes, in both directions; a client chain ending
+in an empty segment never satisfies the judge against a pattern without it -/
+theorem trailing_slash_significant :
+    (parsePattern "/items".toList).bind (fun p => (segsOfPath "/items/".toList).bind (routeMatch p)) = none ∧
+    (parsePattern "/items/".toList).bind (fun p => (segsOfPath "/items".toList).bind (routeMatch p)) = none ∧
+    (parsePattern "/items/".toList).bind (fun p => (segsOfPath "/items/".toList).bind (routeMatch p)) = some [] ∧
+    (parsePattern "/items".toList).bind (fun p => (segsOfPath "/items".toList).bind (routeMatch p)) = some [] ∧
+    pathOk (fun _ => none) [.lit "items".toList, .lit []] [.lit "items".toList] = false := by
+  decide
+
+/-- a parameter that ends the route captures a NON-EMPTY remainder (one in the middle may capture the empty
+string, as matchit 0.8.4 does); a static prefix in the same segment is allowed -/
+theorem capture_nonempty :
+    routeMatch [.lit "a".toList, .cap "x-".toList "id".toList] ["a".toList, "x-5".toList] = some [("id".toList, "5".toList)] ∧
+    routeMatch [.lit "a".toList, .cap "x-".toList "id".toList] ["a".toList, "x-".toList] = none ∧
+    routeMatch [.lit "a".toList, .cap [] "id".toList] ["a".toList, []] = none ∧
+    routeMatch [.cap [] "id".toList, .lit "b".toList] [[], "b".toList] = some [("id".toList, [])] := by
+  decide
+
+/-- matchit 0.8.4 rejects text after a parameter in the same segment (and two parameters in one segment):
+the generated `router()` panics at start-up for such a template (recorded as `KnownParamSuffixSegment`) -/
+theorem param_suffix_rejected :
+    parsePattern "/files/{name}.json".toList = none ∧ parsePattern "/v/{a}:{b}".toList = none ∧
+    parsePattern "/a/x-{id}".toList = some [.lit "a".toList, .cap "x-".toList "id".toList] := by
+  decide
+
+/-- a capture named after the RAW identifier (`{r#type}`) is not the key the path struct deserialises
+(`type`): the judge's path clause fails (recorded as `KnownRawIdentCapture`) -/
+theorem raw_ident_capture_breaks :
+    pathOk (fun f => if f = "r#type".toList then some "type".toList else none) [.param "r#type".toList] [.cap [] "r#type".toList] = false ∧
+    pathOk (fun f => if f = "r#type".toList then some "type".toList else none) [.param "r#type".toList] [.cap [] "type".toList] = true := by
+  decide
+
+/-- literal text that `push` percent-encodes does not match the un-encoded pattern text (axum routes on the
+raw path): recorded as `KnownLiteralNeedsEncoding` -/
+theorem literal_needing_encoding_breaks :
+    urlSafe "a b".toList = false ∧ urlSafe "items".toList = true ∧
+    routeMatch [.lit "a b".toList] [clientRaw (fun _ => []) (.lit "a b".toList)] = none := by
+  decide
+
+/-- header names are matched ASCII-case-insensitively, query keys exactly -/
+theorem name_rules :
+    headerNameEq "X-Trace".toList "x-trace".toList = true ∧ headerNameEq "x-trace".toList "x-trac".toList = false := by
+  decide
+
+/-- **judge soundness**: when `reqInteropOk` accepts the facts of an operation, then for ALL request values
+(path values with a non-empty Display form) the modelled server-side extraction applied to the modelled
+client request yields exactly the values sent — same handler (method, route, body extractor), path captures
+bound to the server's own deserialisation keys, every header / query value found under the name the server
+looks up — and every variant of every enum that travels as a parameter survives its codec pair. -/
+theorem req_interop_sound (f : OpFacts) (h : reqInteropOk f = true) (v : ReqVal)
+    (hv : ∀ c ∈ f.chain, ∀ fld ∈ c.fields, v.path fld ≠ []) :
+    serverExtract f (clientRequest f v) = some (expected f v) ∧
+    (∀ u ∈ f.enums, ∀ x ∈ u.vars, ∃ s, display u.enc x = some s ∧ fromStr u.dec s = some x) :=
+  reqInteropOk_sound f h v hv
+
+end Request
 
 end Oas3.Props.C06
